@@ -77,7 +77,7 @@ class Sched(object):
                 self.turn = None
                 self.cv.notify_all()
 
-        t.thread = _threading.Thread(target=body, name="ctl-" + name, daemon=True)
+        t.thread = _threading.Thread(target=body, name="ctl-%s" % (name,), daemon=True)
         t.thread.start()
         # run it up to its first yield point
         self._grant(name)
